@@ -387,6 +387,16 @@ class Assembly:
         if sum(1 for ci in set(seq) if self.index_lists[ci]) >= 2:
             col.nontriv("assemble", tuple(self.groups), self.metric_name, self.n_chunks, tuple(seq))
         col.outcome("dense", d)
+        # history: the caller works on the dense matrix it was given (fills the diagonal, rescales) and asks again
+        if isinstance(dense, np.ndarray) and dense.size and dense.flags.writeable:
+            np.fill_diagonal(dense, 9.0)
+            dense *= 0.5
+            col.evaluations += 1
+            col.transitions += 1
+            v2 = judge_dense(combined.to_dense(), self.n, self.ref)
+            if v2:
+                col.violation(f"{PROP}|densify|second-call|{v2[0]}",
+                              f"chunk files {list(seq)} (of {self.n_chunks}) for groups={self.groups}: asked for the dense matrix a second time, after the caller edited the first one in place: {v2[1]}", case)
 
 
 def run_shared_head(asm):
